@@ -193,6 +193,26 @@ func isLocalHelper(fn *ssa.Function) bool {
 	return fn.Parent() != nil
 }
 
+// factsRooted: the ways control reaches b that start in root (a helper shared by several exported entries is
+// looked at as part of the entry the rule is about); all ways when none starts there.
+func factsRooted(c *Ctx, root, fn *ssa.Function, b *ssa.BasicBlock) []factCtx {
+	all := factsAtAll(c, fn, b)
+	var out []factCtx
+	for _, ctx := range all {
+		top := ctx.fr
+		for top.parent != nil {
+			top = top.parent
+		}
+		if top.fn == root {
+			out = append(out, ctx)
+		}
+	}
+	if len(out) == 0 {
+		return all
+	}
+	return out
+}
+
 // factCtx: one way control reaches a block: the frame chain and what is known there.
 type factCtx struct {
 	fr    *evalFrame
